@@ -187,7 +187,7 @@ Lemma getgroup_step f s depth out comma :
           let out' := out ++ g in
           if c =? 125 then
             if comma then Ok (Some (out', r))
-            else Ok (Some (map (fun x => [123] ++ x ++ [125]) out', ss))
+            else Ok (Some (map (fun x => [123] ++ x ++ [125]) out', r))
           else if c =? 44 then brace_getgroup_f f r depth out' true
           else brace_getgroup_f f ss depth out' comma
       end
@@ -292,24 +292,176 @@ Proof.
   - left. reflexivity.
 Qed.
 
-(* ------------------------------------------------------------------ 3. brace ranges *)
-Lemma step32_ok oc z : (i32_min <= z <= i32_max)%Z -> step32 oc z = Ok z.
+(* ------------------------------------------------------------------ 2b. groups with one alternative *)
+(** like [wf_term] / [wf_alts] of Model/ExpandRef.v without the demand that a group
+    has at least two alternatives *)
+Fixpoint wf_term1 (t : term) : bool :=
+  match t with
+  | TEnd => true
+  | TChr c k => brace_plain c && wf_term1 k
+  | TGrp a k => wf_alts1 a && wf_term1 k
+  end
+with wf_alts1 (a : alts) : bool :=
+  match a with
+  | AOne t => wf_term1 t
+  | ACons t a' => wf_term1 t && wf_alts1 a'
+  end.
+
+Definition wrap_braces (x : str) : str := [123] ++ x ++ [125].
+
+(** a group with exactly one alternative keeps its braces literally (as in bash) *)
+Definition grp_wrap (a : alts) (l : list str) : list str :=
+  match a with
+  | AOne _ => map wrap_braces l
+  | ACons _ _ => l
+  end.
+
+Fixpoint den_term1 (t : term) : list str :=
+  match t with
+  | TEnd => [[]]
+  | TChr c k => map (cons c) (den_term1 k)
+  | TGrp a k => product (grp_wrap a (den_alts1 a)) (den_term1 k)
+  end
+with den_alts1 (a : alts) : list str :=
+  match a with
+  | AOne t => den_term1 t
+  | ACons t a' => den_term1 t ++ den_alts1 a'
+  end.
+
+Lemma den_term1_one t k :
+  den_term1 (TGrp (AOne t) k)
+  = product (map (fun x => [123] ++ x ++ [125]) (den_term1 t)) (den_term1 k).
+Proof. reflexivity. Qed.
+
+Lemma den_term1_several t a k :
+  den_term1 (TGrp (ACons t a) k) = product (den_term1 t ++ den_alts1 a) (den_term1 k).
+Proof. reflexivity. Qed.
+
+Lemma brace_mutual1 :
+  (forall t, wf_term1 t = true ->
+     forall f rest depth out,
+       (2 * length (render_term t ++ rest) < f)%nat -> stops depth rest ->
+       brace_getitem_f f (render_term t ++ rest) depth out
+       = Ok (product out (den_term1 t), rest))
+  /\
+  (forall a, wf_alts1 a = true ->
+     forall f rest depth out comma,
+       (2 * length (render_alts a ++ 125%N :: rest) + 1 < f)%nat ->
+       (comma = false -> out = []) ->
+       brace_getgroup_f f (render_alts a ++ 125 :: rest) (S depth) out comma
+       = Ok (Some (if comma then out ++ den_alts1 a else grp_wrap a (den_alts1 a), rest))).
 Proof.
-  intros [H1 H2]. unfold step32.
-  apply Z.leb_le in H1. apply Z.leb_le in H2. rewrite H1, H2. reflexivity.
+  apply term_alts_mutind.
+  - (* TEnd *)
+    intros _ f rest depth out Hf Hs. cbn [render_term den_term1 app].
+    rewrite product_unit_r.
+    destruct f as [|f]; [lia|].
+    destruct Hs as [-> | (c & r & -> & Hc)].
+    + apply getitem_nil.
+    + apply getitem_stop. exact Hc.
+  - (* TChr *)
+    intros c k IHk Hwf f rest depth out Hf Hs.
+    cbn [wf_term1] in Hwf. apply andb_true_iff in Hwf as [Hc Hk].
+    cbn [render_term den_term1 app] in *.
+    destruct f as [|f]; [lia|].
+    rewrite getitem_plain by exact Hc.
+    rewrite (IHk Hk).
+    + rewrite product_map_cons. reflexivity.
+    + cbn [length] in Hf. lia.
+    + exact Hs.
+  - (* TGrp *)
+    intros a IHa k IHk Hwf f rest depth out Hf Hs.
+    cbn [wf_term1] in Hwf. apply andb_true_iff in Hwf as [Ha Hk].
+    rewrite render_grp_app in *. cbn [den_term1].
+    destruct f as [|f]; [lia|].
+    rewrite getitem_group.
+    rewrite (IHa Ha f (render_term k ++ rest) depth [] false).
+    + cbn iota. rewrite (IHk Hk).
+      * rewrite product_assoc. reflexivity.
+      * cbn [length] in Hf. rewrite app_length in Hf. cbn [length] in Hf. lia.
+      * exact Hs.
+    + cbn [length] in Hf. lia.
+    + reflexivity.
+  - (* AOne *)
+    intros t IHt Hwf f rest depth out comma Hf Hc.
+    cbn [wf_alts1] in Hwf. cbn [render_alts den_alts1 grp_wrap] in *.
+    destruct f as [|f]; [lia|].
+    rewrite getgroup_step by (destruct (render_term t); discriminate).
+    rewrite (IHt Hwf).
+    + rewrite product_unit_l. cbn beta iota zeta.
+      change (125 =? 125) with true. cbn iota.
+      destruct comma; [reflexivity|].
+      rewrite (Hc eq_refl). reflexivity.
+    + lia.
+    + right. exists 125, rest. split; reflexivity.
+  - (* ACons *)
+    intros t IHt a IHa Hwf f rest depth out comma Hf Hc.
+    cbn [wf_alts1] in Hwf. apply andb_true_iff in Hwf as [Ht Ha].
+    rewrite render_acons_app in *. cbn [den_alts1 grp_wrap].
+    destruct f as [|f]; [lia|].
+    rewrite getgroup_step by (destruct (render_term t); discriminate).
+    rewrite (IHt Ht).
+    + rewrite product_unit_l. cbn beta iota zeta.
+      change (44 =? 125) with false. change (44 =? 44) with true. cbn beta iota.
+      rewrite (IHa Ha).
+      * destruct comma.
+        -- rewrite app_assoc. reflexivity.
+        -- rewrite (Hc eq_refl). reflexivity.
+      * rewrite app_length in Hf. cbn [length] in Hf. lia.
+      * discriminate.
+    + lia.
+    + right. exists 44, (render_alts a ++ 125 :: rest). split; reflexivity.
 Qed.
 
-Lemma range_up_S f oc n e st :
-  range_up (S f) oc n e st =
+Theorem brace_getitem_den1 :
+  forall t, wf_term1 t = true -> brace_getitem (render_term t) 0 = Ok (den_term1 t, []).
+Proof.
+  intros t Hwf. unfold brace_getitem.
+  destruct brace_mutual1 as [H _].
+  specialize (H t Hwf (brace_fuel (render_term t)) [] 0%nat [[]]).
+  rewrite app_nil_r in H. rewrite H.
+  - rewrite product_unit_l. reflexivity.
+  - unfold brace_fuel. lia.
+  - left. reflexivity.
+Qed.
+
+(** on the terms of [wf_term] the two well-formedness notions and denotations agree *)
+Lemma wf_den_term1 :
+  (forall t, wf_term t = true -> wf_term1 t = true /\ den_term1 t = den_term t)
+  /\ (forall a, wf_alts a = true -> wf_alts1 a = true /\ den_alts1 a = den_alts a).
+Proof.
+  apply term_alts_mutind.
+  - intros _. split; reflexivity.
+  - intros c k IHk H. cbn [wf_term] in H. apply andb_true_iff in H as [Hc Hk].
+    destruct (IHk Hk) as [W D]. cbn [wf_term1 den_term1 den_term]. rewrite Hc, W, D. split; reflexivity.
+  - intros a IHa k IHk H. cbn [wf_term] in H. apply andb_true_iff in H as [H Hk].
+    apply andb_true_iff in H as [Hs Ha].
+    destruct (IHa Ha) as [Wa Da]. destruct (IHk Hk) as [Wk Dk].
+    cbn [wf_term1 den_term1 den_term]. rewrite Wa, Wk, Da, Dk.
+    destruct a; [discriminate|]. split; reflexivity.
+  - intros t IHt H. cbn [wf_alts] in H. destruct (IHt H) as [W D].
+    cbn [wf_alts1 den_alts1 den_alts]. split; assumption.
+  - intros t IHt a IHa H. cbn [wf_alts] in H. apply andb_true_iff in H as [Ht Ha].
+    destruct (IHt Ht) as [Wt Dt]. destruct (IHa Ha) as [Wa Da].
+    cbn [wf_alts1 den_alts1 den_alts]. rewrite Wt, Wa, Dt, Da. split; reflexivity.
+Qed.
+
+(* ------------------------------------------------------------------ 3. brace ranges *)
+Lemma range_up_S f n e st :
+  range_up (S f) n e st =
   if (n <=? e)%Z
-  then bind (step32 oc (n + st)) (fun n' => res_map (cons (z_to_dec n)) (range_up f oc n' e st))
+  then (if (n + st <=? i32_max)%Z
+        then res_map (cons (z_to_dec n)) (range_up f (n + st)%Z e st)
+        else Ok [z_to_dec n])
   else Ok [].
 Proof. reflexivity. Qed.
 
-Lemma range_down_S f oc n e st :
-  range_down (S f) oc n e st =
+Lemma range_down_S f n e st :
+  range_down (S f) n e st =
   if (n >=? e)%Z
-  then bind (step32 oc (n - st)) (fun n' => res_map (cons (z_to_dec n)) (range_down f oc n' e st))
+  then (if (i32_min <=? n - st)%Z
+        then res_map (cons (z_to_dec n)) (range_down f (n - st)%Z e st)
+        else Ok [z_to_dec n])
   else Ok [].
 Proof. reflexivity. Qed.
 
@@ -319,22 +471,25 @@ Proof.
   cbn [seq map]. f_equal. rewrite <- seq_shift, map_map. reflexivity.
 Qed.
 
-Lemma range_up_spec oc e st :
-  (1 <= st)%Z -> (e + st <= i32_max)%Z ->
+(** the checked addition fails only when the next element would lie beyond [e] anyway *)
+Lemma range_up_spec e st :
+  (1 <= st)%Z -> (e <= i32_max)%Z ->
   forall k f n,
-    (i32_min <= n)%Z -> (n <= e)%Z -> Z.of_nat k = ((e - n) / st)%Z -> (k + 2 <= f)%nat ->
-    range_up f oc n e st
+    (n <= e)%Z -> Z.of_nat k = ((e - n) / st)%Z -> (k + 2 <= f)%nat ->
+    range_up f n e st
     = Ok (map z_to_dec (map (fun j => (n + Z.of_nat j * st)%Z) (seq 0 (S k)))).
 Proof.
-  intros Hst Hmax. induction k as [|k IH]; intros f n Hmin Hle Hk Hf.
+  intros Hst Hmax. induction k as [|k IH]; intros f n Hle Hk Hf.
   - destruct f as [|[|f]]; try lia.
     assert (Hlt : (e - n < st)%Z).
     { pose proof (Z.mul_succ_div_gt (e - n) st ltac:(lia)) as H. rewrite <- Hk in H. lia. }
     rewrite range_up_S. apply Z.leb_le in Hle as Hle'. rewrite Hle'.
-    rewrite step32_ok by lia. cbn [bind].
-    rewrite range_up_S.
-    assert (Hgt : ((n + st <=? e) = false)%Z) by (apply Z.leb_gt; lia).
-    rewrite Hgt. cbn [res_map seq map]. rewrite Z.mul_0_l, Z.add_0_r. reflexivity.
+    assert (E0 : (n + Z.of_nat 0 * st = n)%Z) by (cbn [Z.of_nat]; lia).
+    destruct (n + st <=? i32_max)%Z.
+    + rewrite range_up_S.
+      assert (Hgt : ((n + st <=? e) = false)%Z) by (apply Z.leb_gt; lia).
+      rewrite Hgt. cbn [res_map seq map]. rewrite E0. reflexivity.
+    + cbn [seq map]. rewrite E0. reflexivity.
   - destruct f as [|f]; try lia.
     assert (Hq : ((e - (n + st)) / st = (e - n) / st - 1)%Z).
     { replace (e - (n + st))%Z with (e - n + (-1) * st)%Z by lia.
@@ -343,7 +498,8 @@ Proof.
     { pose proof (Z.mul_div_le (e - n) st ltac:(lia)) as H. rewrite <- Hk in H.
       rewrite Nat2Z.inj_succ in H. nia. }
     rewrite range_up_S. apply Z.leb_le in Hle as Hle'. rewrite Hle'.
-    rewrite step32_ok by lia. cbn [bind].
+    assert (Hadd : ((n + st <=? i32_max) = true)%Z) by (apply Z.leb_le; lia).
+    rewrite Hadd.
     rewrite (IH f (n + st)%Z) by lia. cbn [res_map].
     f_equal. rewrite (seq_S_map (fun j => (n + Z.of_nat j * st)%Z) (S k)).
     cbn [map]. f_equal.
@@ -351,24 +507,26 @@ Proof.
     + f_equal. apply map_ext. intro j. rewrite Nat2Z.inj_succ. lia.
 Qed.
 
-Lemma range_down_spec oc e st :
-  (1 <= st)%Z -> (i32_min <= e - st)%Z ->
+Lemma range_down_spec e st :
+  (1 <= st)%Z -> (i32_min <= e)%Z ->
   forall k f n,
-    (n <= i32_max)%Z -> (e <= n)%Z -> Z.of_nat k = ((n - e) / st)%Z -> (k + 2 <= f)%nat ->
-    range_down f oc n e st
+    (e <= n)%Z -> Z.of_nat k = ((n - e) / st)%Z -> (k + 2 <= f)%nat ->
+    range_down f n e st
     = Ok (map z_to_dec (map (fun j => (n - Z.of_nat j * st)%Z) (seq 0 (S k)))).
 Proof.
-  intros Hst Hmin. induction k as [|k IH]; intros f n Hmax Hle Hk Hf.
+  intros Hst Hmin. induction k as [|k IH]; intros f n Hle Hk Hf.
   - destruct f as [|[|f]]; try lia.
     assert (Hlt : (n - e < st)%Z).
     { pose proof (Z.mul_succ_div_gt (n - e) st ltac:(lia)) as H. rewrite <- Hk in H. lia. }
     rewrite range_down_S. assert (Hle' : ((n >=? e) = true)%Z) by (apply Z.geb_le; lia).
     rewrite Hle'.
-    rewrite step32_ok by lia. cbn [bind].
-    rewrite range_down_S.
-    assert (Hgt : ((n - st >=? e) = false)%Z).
-    { rewrite Z.geb_leb. apply Z.leb_gt. lia. }
-    rewrite Hgt. cbn [res_map seq map]. rewrite Z.mul_0_l, Z.sub_0_r. reflexivity.
+    assert (E0 : (n - Z.of_nat 0 * st = n)%Z) by (cbn [Z.of_nat]; lia).
+    destruct (i32_min <=? n - st)%Z.
+    + rewrite range_down_S.
+      assert (Hgt : ((n - st >=? e) = false)%Z).
+      { rewrite Z.geb_leb. apply Z.leb_gt. lia. }
+      rewrite Hgt. cbn [res_map seq map]. rewrite E0. reflexivity.
+    + cbn [seq map]. rewrite E0. reflexivity.
   - destruct f as [|f]; try lia.
     assert (Hq : ((n - st - e) / st = (n - e) / st - 1)%Z).
     { replace (n - st - e)%Z with (n - e + (-1) * st)%Z by lia.
@@ -378,7 +536,8 @@ Proof.
       rewrite Nat2Z.inj_succ in H. nia. }
     rewrite range_down_S. assert (Hle' : ((n >=? e) = true)%Z) by (apply Z.geb_le; lia).
     rewrite Hle'.
-    rewrite step32_ok by lia. cbn [bind].
+    assert (Hsub : ((i32_min <=? n - st) = true)%Z) by (apply Z.leb_le; lia).
+    rewrite Hsub.
     rewrite (IH f (n - st)%Z) by lia. cbn [res_map].
     f_equal. rewrite (seq_S_map (fun j => (n - Z.of_nat j * st)%Z) (S k)).
     cbn [map]. f_equal.
@@ -387,12 +546,11 @@ Proof.
 Qed.
 
 Theorem range_list_ref :
-  forall oc a b s,
+  forall a b s,
     (i32_min <= a <= i32_max)%Z -> (i32_min <= b <= i32_max)%Z ->
-    (b + Z.max 1 s <= i32_max)%Z -> (i32_min <= b - Z.max 1 s)%Z ->
-    range_list oc a b (Z.max 1 s) = Ok (map z_to_dec (range_ref a b s)).
+    range_list a b (Z.max 1 s) = Ok (map z_to_dec (range_ref a b s)).
 Proof.
-  intros oc a b s Ha Hb Hmax Hmin.
+  intros a b s Ha Hb.
   unfold range_list, range_ref, range_fuel.
   set (st := Z.max 1 s) in *.
   assert (Hst : (1 <= st)%Z) by (subst st; lia).
@@ -407,7 +565,18 @@ Proof.
     rewrite Z2Nat.id; [reflexivity|]. apply Z.div_pos; lia.
 Qed.
 
+Theorem range_list_total :
+  forall a b s,
+    (i32_min <= a <= i32_max)%Z -> (i32_min <= b <= i32_max)%Z ->
+    exists l, range_list a b (Z.max 1 s) = Ok l /\ l <> [].
+Proof.
+  intros a b s Ha Hb. eexists. split; [apply range_list_ref; assumption|].
+  unfold range_ref. destruct (a <=? b)%Z; cbn [seq map]; discriminate.
+Qed.
+
 Print Assumptions run_pass_flat_map.
 Print Assumptions run_pass_ok.
 Print Assumptions brace_getitem_den.
+Print Assumptions brace_getitem_den1.
 Print Assumptions range_list_ref.
+Print Assumptions range_list_total.
